@@ -460,6 +460,21 @@ class C14(Prop):
                                        f"every protocol violation counts as one error and costs at least the base error cost ({vobs['error_base_cost']})"))
                     break
         ctx['notes'].append(f'protocol violations of every kind (with and without a reply) through a real RPCSession: {nv} messages, each counted and charged')
+        # the same for a MessageSession: checksum, magic and size errors are charged the base cost plus the cost their class carries
+        from harness.props.c07 import C07 as _C07
+        nm = 0
+        for transport in ('rs', 'us'):
+            for faults in (['sum'], ['sum', 'sum', 'none', 'sum'], ['none', 'magic'], ['sum', 'size'], ['sum'] * 8):
+                mcase = {'session': True, 'transport': transport, 'chunk': 1000,
+                         'msgs': [{'cmd': list(b'ping'), 'payload': [1, 2, 3], 'fault': f} for f in faults]}
+                mobs = _C07.session_scenario(mcase)
+                nm += 1
+                ctx['extra_evals'] += 1
+                cl = _C07.session_oracle(mcase, mobs)
+                if cl and ('cost' in cl or 'counted' in cl):
+                    out.append(Failure(mcase, mobs, 'message session: ' + cl))
+                    break
+        ctx['notes'].append(f'framing errors through a real MessageSession, counted and charged with their error-specific cost: {nm} streams')
         sizes = [0, 1, 100, 5000, 100000] + [rng.randrange(0, 200000) for _ in range(10)]
         for n in sizes:
             case = {'kind': 'message_session_send', 'cmd': 'ping', 'payload_len': n}
